@@ -1,35 +1,36 @@
-import NmVerif.Index.SelCommon
+import NmVerif.Index.Broadcast
 /-
-  NmVerif.Index.Where — MODEL of include/nmtools/array/view/where.hpp: `where(c, x, y) = c' ? x' : y'` over
-  `broadcast_arrays(c, x, y)` (Nothing when the shapes do not broadcast).
+  NmVerif.Index.Where — MODEL of include/nmtools/array/view/where.hpp:
+    `view::where(condition, x, y)`: `broadcast_arrays(condition, x, y)` (Nothing when the three shapes do not
+    broadcast; C06's model `broadcastArraysViews`: `broadcast_shape` fold, then `broadcast_to` per operand), then
+    `where_t` over the three broadcast views: `shape()` = shape of the broadcast condition,
+    `operator()(d)`: `c = cond'(d); c ? x'(d) : y'(d)` (only the selected operand is read).
 
   Stable names:
-    `Index.bcast2 a b : Option Shape`          index::broadcast_shape for two shapes (right aligned; equal or 1)
-    `Index.bcastIdx s d : Idx`                 source index of a broadcast operand: right-aligned, extent-1 axes read 0
-    `Index.WhereView`, `Index.whereView c x y : Option WhereView`
-  The broadcast rule itself is C06's subject; here it is only the plumbing of `where`.
+    `Index.WhereView` (`c`, `x`, `y` : the broadcast operand views), `WhereView.dst`
+    `Index.whereView c x y : Option WhereView`
+    `WhereView.select w cond d : Option (Bool × Idx)`   which operand (`false` = x, `true` = y) and the source index
+                                                        that is read for destination index `d`; `cond` = content of
+                                                        the condition array by source index
   Core Lean only.
 -/
 namespace NmVerif.Index
 
-def bcast2Rev : List Nat → List Nat → Option (List Nat)
-  | [], b => some b
-  | a, [] => some a
-  | x :: a, y :: b =>
-      if x = y ∨ x = 1 ∨ y = 1 then (bcast2Rev a b).map (fun r => max x y :: r) else none
-
-def bcast2 (a b : Shape) : Option Shape := (bcast2Rev a.reverse b.reverse).map List.reverse
-
-def bcastIdx (s : Shape) (d : Idx) : Idx :=
-  List.zipWith (fun e i => if e = 1 then 0 else i) s (d.drop (d.length - s.length))
-
 structure WhereView where
-  c : Shape
-  x : Shape
-  y : Shape
-  dst : Shape
+  c : IxView
+  x : IxView
+  y : IxView
+
+/-- `where_t::shape()`: the shape of the (broadcast) condition operand -/
+def WhereView.dst (w : WhereView) : Shape := w.c.dst
 
 def whereView (c x y : Shape) : Option WhereView :=
-  ((bcast2 c x).bind (fun cx => bcast2 cx y)).map (fun dst => ⟨c, x, y, dst⟩)
+  match broadcastArraysViews [c, x, y] with
+  | some [vc, vx, vy] => some ⟨vc, vx, vy⟩
+  | _ => none
+
+def WhereView.select (w : WhereView) (cond : Idx → Int) (d : Idx) : Option (Bool × Idx) :=
+  (w.c.map d).bind (fun ic =>
+    if cond ic ≠ 0 then (w.x.map d).map (fun i => (false, i)) else (w.y.map d).map (fun i => (true, i)))
 
 end NmVerif.Index
